@@ -88,6 +88,18 @@ def strip_verif_hooks(m):
     return "".join(out)
 
 
+def match_paren(m, open_idx):
+    depth = 0
+    for k in range(open_idx, len(m)):
+        if m[k] == "(":
+            depth += 1
+        elif m[k] == ")":
+            depth -= 1
+            if depth == 0:
+                return k
+    raise ExtractError("unbalanced ( at %d" % open_idx)
+
+
 def fn_spans(m):
     """[(start, end, name)] of fn bodies, innermost last"""
     spans = []
@@ -175,6 +187,7 @@ def extract():
         m = strip_verif_hooks(strip_test_modules(src, mask(src)))
         srcs[rel] = src; masked[rel] = m
     fields = hash_fields(masked)
+    closure_under_lock = {}     # fn name -> file: functions that call a closure parameter while holding a static lock
     forbid = 0
     for rel in sorted(masked):
         m = masked[rel]
@@ -196,8 +209,15 @@ def extract():
                 for a in re.finditer(r"\b%s\s*\.\s*(write|read|lock|try_write|try_read|try_lock)\s*\(\s*\)(?:\s*\.\s*(?:unwrap\s*\(\s*\)|unwrap_or_else\s*\([^;]*?\)|expect\s*\([^;]*?\)))?" % re.escape(lk.group(1)), body):
                     if enclosing_fn(spans, s_ + a.start()) != n_:
                         continue      # reported for the innermost function only
-                    ops = UNDER_LOCK_OPS.findall(body[a.end():])
-                    rows.append((rel, "under-lock", "%s:%s.%s%s" % (n_, lk.group(1), a.group(1), "".join(":" + re.sub(r"\s+", "", o).strip(".(") for o in ops))))
+                    ops = [re.sub(r"\s+", "", o).strip(".(") for o in UNDER_LOCK_OPS.findall(body[a.end():])]
+                    # closures received as parameters and called while the lock is held: whatever they do happens under the lock
+                    sig = m[max(0, s_ - 400):s_]
+                    sig = sig[sig.rfind("fn " + n_):] if ("fn " + n_) in sig else ""
+                    for cp in re.finditer(r"\b([a-z_][a-z0-9_]*)\s*:\s*(?:impl|&dyn|Box<dyn)\s+Fn(?:Once|Mut)?\b", sig):
+                        if re.search(r"(?<![A-Za-z0-9_.])%s\s*\(" % re.escape(cp.group(1)), body[a.end():]):
+                            ops.append("call:" + cp.group(1))
+                            closure_under_lock.setdefault(n_, rel)
+                    rows.append((rel, "under-lock", "%s:%s.%s%s" % (n_, lk.group(1), a.group(1), "".join(":" + o for o in ops))))
         for mm in re.finditer(r"\b(lazy_static|thread_local)\s*!", m):
             rows.append((rel, "lazy" if mm.group(1) == "lazy_static" else "thread_local", enclosing_fn(spans, mm.start())))
         for mm in re.finditer(r"\benv::(var|vars|var_os|args|current_dir|temp_dir|set_var)\b", m):
@@ -219,6 +239,27 @@ def extract():
             rows.append((rel, "hash-iter", "%s:%s.%s%s" % (enclosing_fn(spans, mm.start()), mm.group(2), mm.group(3), " +sorted" if sorted_after(m, spans, mm.start()) else "")))
         for mm in re.finditer(r"\bfor\s+[^;{]*?\bin\s+&?\s*(?:mut\s+)?((?:[a-z_][a-z0-9_]*\s*\.\s*)*)(%s)\s*\{" % alt, m):
             rows.append((rel, "hash-iter", "%s:%s.for%s" % (enclosing_fn(spans, mm.start()), mm.group(2), " +sorted" if sorted_after(m, spans, mm.start()) else "")))
+    # every call site that hands a closure to such a function: what the closure does runs under the lock
+    # (item = <enclosing fn>:<callee>(closure)[:<op>...] x<number of such call sites in that fn>)
+    for callee in sorted(closure_under_lock):
+        for rel in sorted(masked):
+            m = masked[rel]
+            spans = fn_spans(m)
+            per = {}
+            for mm in re.finditer(r"(?<![A-Za-z0-9_])%s\s*\(\s*(?:move\s*)?\|[^|]*\|" % re.escape(callee), m):
+                o = m.index("(", mm.start())
+                try:
+                    c = match_paren(m, o)
+                except ExtractError:
+                    raise ExtractError("unbalanced call of %s in %s" % (callee, rel))
+                text = m[mm.end():c]
+                ops = [re.sub(r"\s+", "", x).strip(".(") for x in UNDER_LOCK_OPS.findall(text)]
+                ops += ["format!"] * len(re.findall(r"\bformat!\s*\(", text))      # runs the arguments' Display / Debug impls under the lock
+                ops += ["log::"] * len(re.findall(r"\blog::(?:debug|info|warn|error|trace)!", text))   # re-entrant logging would deadlock
+                key = (enclosing_fn(spans, mm.start()), "".join(":" + x for x in ops))
+                per[key] = per.get(key, 0) + 1
+            for (fn_, ops_), k in per.items():
+                rows.append((rel, "under-lock", "%s:%s(closure)%s x%d" % (fn_, callee, ops_, k)))
     rows = sorted(set(rows))
     return {"rows": rows, "files": len(masked), "hash_fields": sorted(fields)}
 
